@@ -19,12 +19,14 @@ structure Inv (sc : Scenario) (s : State) : Prop where
   wok : ∀ (j : Nat) (w : Writer), s.writers[j]? = some w → View s w
   conservation : s.credit + totalTakes s = sc.credit + s.grants
   grants : s.grants + grantsToCome s = sc.ackTotal
-  closed_iff : s.closed = true ↔ 0 < s.actors.countP pCloserMid + s.actors.countP pCloserDone
+  closed_iff : s.closed = true ↔
+    0 < s.actors.countP pCloserMid + s.actors.countP pCloserDone + s.shutdownsDone
+  shutdowns : s.shutdownsLeft + s.shutdownsDone = sc.shutdowns
 
 theorem init_inv (sc : Scenario) : Inv sc (init sc) := by
   have h1 := countP_map_write pCloserMid (by intro k; simp [pCloserMid]) sc.actors
   have h2 := countP_map_write pCloserDone (by intro k; simp [pCloserDone]) sc.actors
-  refine ⟨?_, ?_, ?_, ?_, ?_⟩
+  refine ⟨?_, ?_, ?_, ?_, ?_, by simp [init]⟩
   · intro j w h
     simp only [init, List.getElem?_map] at h
     cases hj : sc.writers[j]? <;> simp [hj] at h
@@ -59,10 +61,10 @@ theorem writer_inv {sc : Scenario} {s : State} (h : Inv sc s) (i : Nat) : Inv sc
   | none => rw [writerStep_none hw]; exact h
   | some w0 =>
     rw [writerStep_some hw]
-    obtain ⟨h1, h2, h3, h4, h5⟩ := h
+    obtain ⟨h1, h2, h3, h4, h5, h6⟩ := h
     have hw0 := h1 i w0 hw
     have hv0 := h2 i w0 hw
-    refine ⟨?_, ?_, ?_, h4, h5⟩
+    refine ⟨?_, ?_, ?_, h4, h5, h6⟩
     · intro j w hj
       rcases getElem?_set_cases hj with ⟨_, rfl⟩ | ⟨_, hj'⟩
       · exact next_winv hw0 _ _ _
@@ -71,7 +73,7 @@ theorem writer_inv {sc : Scenario} {s : State} (h : Inv sc s) (i : Nat) : Inv sc
       rcases getElem?_set_cases hj with ⟨_, rfl⟩ | ⟨_, hj'⟩
       · have hcl : s.closed = false → s.actors.countP pCloserDone = 0 := by
           intro hc
-          have : ¬ (0 < s.actors.countP pCloserMid + s.actors.countP pCloserDone) := by
+          have : ¬ (0 < s.actors.countP pCloserMid + s.actors.countP pCloserDone + s.shutdownsDone) := by
             rw [← h5]; simp [hc]
           omega
         have := next_wok hv0 s.closed hcl
@@ -113,8 +115,8 @@ theorem actor_ack_write {sc : Scenario} {s : State} (h : Inv sc s) (i n : Nat)
   have e2 : grantToCome ⟨.ack n, .wake⟩ = 0 := rfl
   rw [e1, e2] at hg
   simp [pCloserMid, pCloserDone, pAckerMid, Actor.isCloser] at hm hd hk
-  obtain ⟨h1, h2, h3, h4, h5⟩ := h
-  refine ⟨h1, ?_, ?_, ?_, ?_⟩
+  obtain ⟨h1, h2, h3, h4, h5, h6⟩ := h
+  refine ⟨h1, ?_, ?_, ?_, ?_, h6⟩
   · intro j w hj
     have := wok_ack (h2 j w hj) n
     simpa [View, hd, hk] using this
@@ -133,8 +135,8 @@ theorem actor_close_write {sc : Scenario} {s : State} (h : Inv sc s) (i : Nat)
   have e2 : grantToCome ⟨.close, .wake⟩ = 0 := rfl
   rw [e1, e2] at hg
   simp [pCloserMid, pCloserDone, pAckerMid, Actor.isCloser] at hm hd hk
-  obtain ⟨h1, h2, h3, h4, h5⟩ := h
-  refine ⟨h1, ?_, h3, ?_, ?_⟩
+  obtain ⟨h1, h2, h3, h4, h5, h6⟩ := h
+  refine ⟨h1, ?_, h3, ?_, ?_, h6⟩
   · intro j w hj
     have := h2 j w hj
     simpa [View, hd, hk] using this
@@ -149,9 +151,10 @@ theorem actor_wake {sc : Scenario} {s : State} (h : Inv sc s) (i : Nat) (k : Act
   have hm := countP_set_add pCloserMid s.actors i _ ⟨k, .done⟩ ha
   have hd := countP_set_add pCloserDone s.actors i _ ⟨k, .done⟩ ha
   have hg := sum_map_set grantToCome s.actors i _ ⟨k, .done⟩ ha
-  obtain ⟨h1, h2, h3, h4, h5⟩ := h
+  obtain ⟨h1, h2, h3, h4, h5, h6⟩ := h
   have h5' : s.closed = true ↔
-      0 < (s.actors.set i ⟨k, .done⟩).countP pCloserMid + (s.actors.set i ⟨k, .done⟩).countP pCloserDone := by
+      0 < (s.actors.set i ⟨k, .done⟩).countP pCloserMid + (s.actors.set i ⟨k, .done⟩).countP pCloserDone
+        + s.shutdownsDone := by
     rw [h5]
     cases k <;> simp [pCloserMid, pCloserDone, Actor.isCloser] at hm hd ⊢ <;> omega
   have h4' : s.grants + ((s.actors.set i ⟨k, .done⟩).map grantToCome).sum = sc.ackTotal := by
@@ -162,13 +165,13 @@ theorem actor_wake {sc : Scenario} {s : State} (h : Inv sc s) (i : Nat) (k : Act
   unfold doWake
   cases hr : s.registered with
   | none =>
-    refine ⟨h1, ?_, h3, h4', h5'⟩
+    refine ⟨h1, ?_, h3, h4', h5', h6⟩
     intro j w hj
     have := h2 j w hj
     simp only [View, hr, Option.isSome_none] at this ⊢
     exact wok_wake_none this
   | some x =>
-    refine ⟨h1, ?_, h3, h4', h5'⟩
+    refine ⟨h1, ?_, h3, h4', h5', h6⟩
     intro j w hj
     have := h2 j w hj
     simp only [View, List.length_cons, Option.isSome_none]
@@ -195,10 +198,10 @@ theorem spurious_inv {sc : Scenario} {s : State} (h : Inv sc s) (i : Nat) : Inv 
   · next w0 hw =>
     split
     · next orig hpc =>
-      obtain ⟨h1, h2, h3, h4, h5⟩ := h
+      obtain ⟨h1, h2, h3, h4, h5, h6⟩ := h
       have hw0 := h1 i w0 hw
       have hv0 := h2 i w0 hw
-      refine ⟨?_, ?_, ?_, h4, h5⟩
+      refine ⟨?_, ?_, ?_, h4, h5, h6⟩
       · intro j w hj
         rcases getElem?_set_cases hj with ⟨_, rfl⟩ | ⟨_, hj'⟩
         · obtain ⟨a1, a2, a3, a4, a5, a6, a7⟩ := hw0
@@ -218,12 +221,27 @@ theorem spurious_inv {sc : Scenario} {s : State} (h : Inv sc s) (i : Nat) : Inv 
         omega
     · exact h
 
+/-- A foreign `do_shutdown()`: the flag is set, nothing in the wake-up accounting moves (no `wake()` is
+    owed by it and none is performed). -/
+theorem shutdown_inv {sc : Scenario} {s : State} (h : Inv sc s) : Inv sc (shutdownStep s) := by
+  unfold shutdownStep
+  split
+  · exact h
+  · next n hn =>
+    obtain ⟨h1, h2, h3, h4, h5, h6⟩ := h
+    refine ⟨h1, h2, h3, h4, ?_, ?_⟩
+    · simp only []; constructor
+      · intro _; omega
+      · intro _; trivial
+    · simp only []; omega
+
 /-- Every step preserves the invariant. -/
 theorem step_inv {sc : Scenario} {s : State} (h : Inv sc s) (l : Label) : Inv sc (step s l) := by
   cases l with
   | writer i => exact writer_inv h i
   | casSpurious i => exact spurious_inv h i
   | actor i => exact actor_inv h i
+  | shutdown => exact shutdown_inv h
 
 theorem foldl_inv {sc : Scenario} (ls : List Label) :
     ∀ s, Inv sc s → Inv sc (ls.foldl step s) := by
@@ -278,6 +296,45 @@ theorem totalSome_eq_totalSent {sc : Scenario} {s : State} (h : Inv sc s) : tota
 
 theorem totals {sc : Scenario} {s : State} (h : Inv sc s) : totalSent s + inFlight s = totalTakes s :=
   sent_inflight_takes s.writers (fun _ hw => winv_of_mem h hw)
+
+/-- "the connection task has closed the stream" in terms of the counts of the invariant -/
+theorem taskClosed_iff (s : State) :
+    taskClosed s = true ↔ 0 < s.actors.countP pCloserMid + s.actors.countP pCloserDone := by
+  simp only [taskClosed, List.any_eq_true]
+  constructor
+  · rintro ⟨a, ha, hp⟩
+    simp only [Bool.and_eq_true, bne_iff_ne, ne_eq] at hp
+    cases hpc : a.pc with
+    | write => exact absurd hpc hp.2
+    | wake =>
+      have : 0 < s.actors.countP pCloserMid :=
+        List.countP_pos_iff.mpr ⟨a, ha, by simp [pCloserMid, hp.1, hpc]⟩
+      omega
+    | done =>
+      have : 0 < s.actors.countP pCloserDone :=
+        List.countP_pos_iff.mpr ⟨a, ha, by simp [pCloserDone, hp.1, hpc]⟩
+      omega
+  · intro h
+    have : 0 < s.actors.countP pCloserMid ∨ 0 < s.actors.countP pCloserDone := by omega
+    rcases this with h | h <;> obtain ⟨a, ha, hp⟩ := List.countP_pos_iff.mp h
+    · simp [pCloserMid] at hp
+      exact ⟨a, ha, by simp [hp.1, hp.2]⟩
+    · simp [pCloserDone] at hp
+      exact ⟨a, ha, by simp [hp.1, hp.2]⟩
+
+theorem taskCloseCompleted_iff (s : State) :
+    taskCloseCompleted s = true ↔ 0 < s.actors.countP pCloserDone := by
+  simp only [taskCloseCompleted, List.any_eq_true, List.countP_pos_iff, pCloserDone]
+
+/-- Without foreign shutdowns the flag is set exactly when the connection task has closed the stream. -/
+theorem closed_eq_taskClosed {sc : Scenario} {s : State} (h : Inv sc s) (hs : sc.shutdowns = 0) :
+    s.closed = taskClosed s := by
+  have h6 := h.shutdowns
+  have h5 := h.closed_iff
+  have ht := taskClosed_iff s
+  have hd : s.shutdownsDone = 0 := by omega
+  rw [hd, Nat.add_zero, ← ht] at h5
+  cases hc : s.closed <;> cases htc : taskClosed s <;> simp_all
 
 theorem finished_inFlight {s : State} (hf : allWritersFinished s = true) : inFlight s = 0 := by
   simp only [allWritersFinished, List.all_eq_true] at hf
